@@ -40,6 +40,9 @@ _SPECIAL = {
     "g_q16.rs": "src/quire16.rs",
     "g_q32.rs": "src/quire32.rs",
     "h_rand.rs": ("src/p16e1.rs", 'feature = "rand"'),
+    "g_b_q8poly.rs": "src/quire8.rs",
+    "g_b_q16poly.rs": "src/quire16.rs",
+    "g_b_q32poly.rs": "src/quire32.rs",
 }
 import glob as _glob, os as _os
 MODULES = []
@@ -164,4 +167,14 @@ PROPERTY_META = {
    note=_KANI_NOTE + " NOT covered: from_f32/from_f64 of the generic types (the code loops on f64 values, up to 270 IEEE multiplications: out of reach; "
         "not claimed). Known findings D16 (integer -> generic) and D17 (PxE2 -> PxE1) are listed at whole-obligation granularity.",
    assumptions=["PxE1/PxE2::from_f32/from_f64 are not verified (float loops)", "generic->generic pairs are checked for source widths M in {2,5,8,16,32} only"]),
+ "C18": dict(level="proof",
+   text="Polynom/Poly are parametric in the posit type: they only use `*`, the quire `+= (a, b)`, `init` and the rounding `into()`. For each of "
+        "P8E0, P16E1, P32E2 these three operations are replaced by tag functions (order-sensitive product, COMMUTATIVE accumulation, injective rounding) "
+        "and every poly1..poly18, poly3a, poly4a is proved equal, for all x and all coefficients, to the documented construction written independently "
+        "(one quire stage for degree <= 4, otherwise the leading coefficients first and the rounded value as leading coefficient of the outer stage; "
+        "x^2 = x*x, x^3 = x^2*x, x^4 = x^2*x^2). What the three operations compute is carried by the C01 (mul) and C04 (fdp exact, to_posit rounds once) contracts.",
+   note=_KANI_NOTE + " The meaning of polyN as 'round(sum c_i * pow_i)' is the composition of this wiring proof with the C01/C04 contracts (caller checked "
+        "against callee contracts, not bodies). Coefficient types other than Self (arrays) are not covered.",
+   assumptions=["composition with C01 (mul) and C04 (fdp, to_posit) contracts is by the modular argument, not re-proved monolithically",
+                "Polynom<[P; k]> (array-valued coefficients) is not covered"]),
 }
